@@ -232,6 +232,11 @@ class Prop(PropBase):
             axis_arg = ax - z.ndim
         elif form == 3:
             axis_arg = np.int64(ax - z.ndim)
+        # the default axis (0 = time) by omission, for every second time-axis case
+        omit = case["axis"] == "time" and (case["L"] + len(case["cuts"])) % 2 == 0
+
+        def cat(ps):
+            return pb.concatenate(ps) if omit else pb.concatenate(ps, axis=axis_arg)
         desc = [self._describe(p, tref) for p in pieces]
         spelling = f"n:{axis_arg}" if isinstance(axis_arg, str) else f"i:{int(axis_arg)}"
         cls_is_radio = isinstance(z, pb.RadioSignal)
@@ -239,17 +244,17 @@ class Prop(PropBase):
         try:
             if case["group"]:
                 g = case["group"]
-                left = pb.concatenate(pieces[:g], axis=axis_arg)
-                right = pb.concatenate(pieces[g:], axis=axis_arg)
-                y = pb.concatenate([left, right], axis=axis_arg)
-                yflat = pb.concatenate(pieces, axis=axis_arg)
+                left = cat(pieces[:g])
+                right = cat(pieces[g:])
+                y = cat([left, right])
+                yflat = cat(pieces)
                 out["assoc_same"] = bool(
                     np.array_equal(np.asarray(y.data), np.asarray(yflat.data)) and len(y) == len(yflat)
                     and (y.start_time is None) == (yflat.start_time is None)
                     and (y.start_time is None or abs((y.start_time - yflat.start_time).to_value(u.s)) < 1e-10)
                     and (not isinstance(y, pb.RadioSignal) or bool(u.allclose(y.channel_freqs, yflat.channel_freqs, rtol=1e-12))))
             else:
-                y = pb.concatenate(pieces, axis=axis_arg)
+                y = cat(pieces)
         except Exception as e:
             out["err"] = err_name(e)
             return out
